@@ -83,3 +83,13 @@ add('C17',
     assumptions=['the (state,value) models follow std::optional / std::variant / a 10-line expected model; moved-from holders keep their state with an unspecified value'],
     )
 C16_JOBS.append(job('holders', 'c17_holders.cpp', args=['--arg', 'prop=C16'], shards={'quick': 4, 'thorough': 8}, hang_is_violation=True))
+
+# ---------------------------------------------------------------------------------------------- C06
+add('C06',
+    level='exploration',
+    rule='insert/remove histories on rbtree (with a subtree-size aggregator) and rbtree_order: all insertion orders x all removal orders for n<=6 (7 thorough) incl. duplicate-key variants and re-insertion, all insertion-position sequences for rbtree_order, random trees to 3000 (20000) nodes',
+    jobs=[job('rbtree', 'c06_rbtree.cpp', shards={'quick': 12, 'thorough': 16}, hang_is_violation=True)],
+    min_evaluations={'quick': 100000, 'thorough': 1000000},
+    min_counters={'exhaustive_histories': 100000, 'order_histories': 1000, 'random_histories': 100},
+    assumptions=['colours are read from the public hook member; everything else goes through the public navigation API'],
+    )
